@@ -259,6 +259,107 @@ fn crash_child(dir: &std::path::Path) {
     b.create_snapshot().unwrap();
 }
 
+// F-C01-b (C01, known finding): a fresh start over an EXISTING MANIFEST.  kyrodb_server with persistence.enable_recovery=false (or any
+// TieredEngine::new / HnswBackend::with_persistence on a used directory) starts EMPTY, but Manifest::load_or_create inherits the old
+// snapshot pointer + segment list and next_wal_seq restarts at 1: writes acknowledged in that run carry sequence numbers the old
+// snapshot already "covers" and are skipped by the next recovery, which brings the old collection back.
+//   run1 manifest: seq=Some(4)   run2 len=0, insert 100/101 -> Ok, create_snapshot -> Ok (skipped as stale, pointer unchanged)
+//   run3 recovered len=5 ids=[1, 2, 3, 4, 5]
+fn fresh_over_manifest() -> bool {
+    let dir = tempfile::tempdir().unwrap();
+    // run 1: normal life
+    let b = HnswBackend::with_persistence(2, DistanceMetric::Euclidean, vec![], vec![], 100, dir.path(), FsyncPolicy::Always, 0, 0).unwrap();
+    for i in 1..=4u64 { b.insert(i, vec![i as f32, 1.0], HashMap::new()).unwrap(); }
+    b.create_snapshot().unwrap();
+    b.insert(5, vec![5.0, 1.0], HashMap::new()).unwrap();
+    drop(b);
+    let m1 = Manifest::load(dir.path().join("MANIFEST")).unwrap();
+    println!("  run1 manifest: snapshot={:?} seq={:?} segments={}", m1.latest_snapshot, m1.latest_snapshot_wal_seq, m1.wal_segments.len());
+    // run 2: what the server does with enable_recovery=false: with_persistence over the SAME directory
+    let b = HnswBackend::with_persistence(2, DistanceMetric::Euclidean, vec![], vec![], 100, dir.path(), FsyncPolicy::Always, 0, 0).unwrap();
+    println!("  run2 (fresh start over existing MANIFEST): len={}", b.len());
+    let r100 = b.insert(100, vec![100.0, 1.0], HashMap::new());
+    let r101 = b.insert(101, vec![101.0, 1.0], HashMap::new());
+    println!("  run2 insert 100 -> ok={}, insert 101 -> ok={} (acknowledged)", r100.is_ok(), r101.is_ok());
+    println!("  run2 create_snapshot -> ok={}", b.create_snapshot().is_ok());
+    drop(b);
+    let m2 = Manifest::load(dir.path().join("MANIFEST")).unwrap();
+    println!("  run2 manifest: snapshot={:?} seq={:?} segments={}", m2.latest_snapshot, m2.latest_snapshot_wal_seq, m2.wal_segments.len());
+    if !(r100.is_ok() && r101.is_ok()) { return false; }
+    // run 3: recovery enabled again
+    match HnswBackend::recover(2, DistanceMetric::Euclidean, dir.path(), 100, FsyncPolicy::Always, 0, 0, MetricsCollector::new()) {
+        Ok(r) => {
+            let ids: Vec<u64> = (0..200u64).filter(|i| r.fetch_document(*i).is_some()).collect();
+            println!("  run3 recovered len={} ids={:?}", r.len(), ids);
+            !ids.contains(&100) || !ids.contains(&101)
+        }
+        Err(e) => { println!("  run3 RECOVERY FAILED: {e:#}"); true }
+    }
+}
+
+// F-C03-c (C01/C03, candidate): a FAILED rollback does not fence the WAL writer.  Two storage faults in one append -- the frame is
+// written only partly (here: RLIMIT_FSIZE 10 bytes past the end of the segment, SIGXFSZ ignored) and the rollback's ftruncate fails
+// (here: the segment carries the append-only inode flag, so O_APPEND writes work and ftruncate answers EPERM) -- make the insert return
+// Err and leave the torn bytes in the file; nothing marks the writer damaged, so the NEXT insert is appended behind the torn bytes,
+// fsynced and acknowledged.  (Variant inside one call: write_with_retry retries after a failed rollback whenever the rollback error is
+// classified Transient; not reproducible without fault injection: EPERM is terminal.)  No syscall interposition is used.
+//   needs root + a file system with FS_IOC_SETFLAGS (ext4/xfs/btrfs/tmpfs>=6.0); otherwise "nothing to decide"
+fn set_append_only(path: &std::path::Path, on: bool) -> bool {
+    use std::os::unix::io::AsRawFd;
+    const FS_IOC_GETFLAGS: libc::c_ulong = 0x8008_6601;
+    const FS_IOC_SETFLAGS: libc::c_ulong = 0x4008_6602;
+    const FS_APPEND_FL: libc::c_long = 0x20;
+    let f = match std::fs::File::open(path) { Ok(f) => f, Err(_) => return false };
+    let mut flags: libc::c_long = 0;
+    if unsafe { libc::ioctl(f.as_raw_fd(), FS_IOC_GETFLAGS as _, &mut flags) } != 0 { return false; }
+    if on { flags |= FS_APPEND_FL } else { flags &= !FS_APPEND_FL }
+    unsafe { libc::ioctl(f.as_raw_fd(), FS_IOC_SETFLAGS as _, &flags) == 0 }
+}
+fn failed_rollback_not_fenced() -> bool {
+    let dir = tempfile::tempdir().unwrap();
+    let b = HnswBackend::with_persistence(2, DistanceMetric::Euclidean, vec![], vec![], 100, dir.path(), FsyncPolicy::Always, 0, 0).unwrap();
+    b.insert(1, vec![1.0, 1.0], HashMap::new()).unwrap();
+    let m = Manifest::load(dir.path().join("MANIFEST")).unwrap();
+    let wal = dir.path().join(m.wal_segments.last().unwrap());
+    let len0 = std::fs::metadata(&wal).unwrap().len();
+    if !set_append_only(&wal, true) {
+        println!("  cannot set the append-only flag on {} (not root / unsupported file system): nothing to decide", wal.display());
+        return false;
+    }
+    // fault 1: the next frame is cut after 10 bytes; fault 2: the rollback's ftruncate fails (append-only inode)
+    let mut old = libc::rlimit { rlim_cur: 0, rlim_max: 0 };
+    unsafe {
+        libc::signal(libc::SIGXFSZ, libc::SIG_IGN);
+        libc::getrlimit(libc::RLIMIT_FSIZE, &mut old);
+        let lim = libc::rlimit { rlim_cur: (len0 + 10) as libc::rlim_t, rlim_max: old.rlim_max };
+        libc::setrlimit(libc::RLIMIT_FSIZE, &lim);
+    }
+    let r2 = b.insert(2, vec![2.0, 1.0], HashMap::new());
+    unsafe { libc::setrlimit(libc::RLIMIT_FSIZE, &old); }
+    let len1 = std::fs::metadata(&wal).unwrap().len();
+    println!("  insert 2 under faults -> {} ; segment {} -> {} bytes (torn bytes left: {})",
+        match &r2 { Ok(()) => "Ok".to_string(), Err(e) => format!("Err({:#})", e).chars().take(160).collect() }, len0, len1, len1 - len0);
+    // storage healthy again: the next insert is acknowledged
+    let r3 = b.insert(3, vec![3.0, 1.0], HashMap::new());
+    let len2 = std::fs::metadata(&wal).unwrap().len();
+    println!("  insert 3 (no fault) -> ok={} ; segment -> {} bytes ; wal_inconsistent={}", r3.is_ok(), len2, b.is_wal_inconsistent());
+    let live3 = b.fetch_document(3).is_some();
+    drop(b);
+    set_append_only(&wal, false);
+    if r2.is_ok() || len1 == len0 || !r3.is_ok() {
+        println!("  (faults did not produce the two-fault state: nothing to decide)");
+        return false;
+    }
+    match HnswBackend::recover(2, DistanceMetric::Euclidean, dir.path(), 100, FsyncPolicy::Always, 0, 0, MetricsCollector::new()) {
+        Ok(r) => {
+            let ids: Vec<u64> = (0..10u64).filter(|i| r.fetch_document(*i).is_some()).collect();
+            println!("  strict recovery succeeded: ids={:?} (live before the restart: doc 3 present={})", ids, live3);
+            !ids.contains(&3) || !ids.contains(&1)
+        }
+        Err(e) => { println!("  STRICT RECOVERY FAILED after an acknowledged write: {e:#}"); true }
+    }
+}
+
 // F-C07-b (candidate, C07): the similarity path compares queries by COSINE similarity whatever the metric; under Euclidean
 // two collinear un-normalised queries are "similar" although their nearest neighbours differ.
 fn similarity_ignores_metric() -> bool {
@@ -435,6 +536,8 @@ fn main() {
         ("F-C03-a.overflow", Box::new(|| failed_overwrite(DistanceMetric::Cosine, vec![1.0, 0.0], vec![3e19, 3e19]))),
         ("F-C03-a.inf", Box::new(|| failed_overwrite(DistanceMetric::Cosine, vec![1.0, 0.0], vec![f32::INFINITY, 0.0]))),
         ("F-C01-a", Box::new(crash_at_first_unlink)),
+        ("F-C01-b", Box::new(fresh_over_manifest)),
+        ("F-C03-c", Box::new(failed_rollback_not_fenced)),
         ("F-C12-a", Box::new(prune_parent)),
         ("F-C12-b.name", Box::new(c12_name_bit_flip)),
         ("F-C12-b.slash", Box::new(c12_name_slash)),
